@@ -484,7 +484,7 @@ func gen(c *harness.C) []harness.Case {
 			plans = append(plans, plan{cfg{mode: m, n: 3, t: 2}, 2})
 		}
 		plans = append(plans, plan{cfg{mode: "loud", n: 2, t: 2}, 3}, plan{cfg{mode: "silent", n: 2, t: 2}, 3}, plan{cfg{mode: "loud", n: 3, t: 3}, 1}, plan{cfg{mode: "silent", n: 3, t: 3}, 1})
-		for _, k := range []cfg{{mode: "loud", n: 4, t: 3}, {mode: "silent", n: 4, t: 3}, {mode: "loud", n: 4, t: 2}, {mode: "loud", n: 5, t: 3}} {
+		for _, k := range []cfg{{mode: "loud", n: 4, t: 3}, {mode: "silent", n: 4, t: 3}, {mode: "loud", n: 4, t: 2}, {mode: "loud", n: 5, t: 3}, {mode: "loud", n: 5, t: 4}, {mode: "silent", n: 6, t: 5}} {
 			plans = append(plans, plan{k, 0})
 		}
 	}
